@@ -5,6 +5,7 @@
 (* with its three consumers on the data path.                              *)
 (*                                                                         *)
 (*   db   : UID -|-> (Field -|-> Int)   what the running manager serves    *)
+(*          (a total map with the sentinels NoUser / Absent)               *)
 (*   disk : the same map as stored in the bolt file                        *)
 (*                                                                         *)
 (* One action per admin request / manager call; every accepted request is  *)
@@ -28,6 +29,7 @@ CONSTANTS
   ValsAll,               \* "all six fields := v"
   WithNone,              \* BOOLEAN: the write class "no field at all" (creates an empty record)
   UpUsages, DownUsages,  \* usage amounts offered to Upload (names of values >= 0)
+  NoUser, Absent,        \* model values: "no such user", "field never written"
   AbsentReadsZero,       \* TRUE: a field never written reads as 0 (HEAD). FALSE: pre-ae06e04 design, the read panics
   RejectNonPositiveRate  \* TRUE: a connecting user with a rate <= 0 is refused (HEAD). FALSE: pre-53a2c2f, the limiter panics
 
@@ -54,27 +56,30 @@ VARIABLES
 vars == <<db, disk, last, nops>>
 
 -----------------------------------------------------------------------------
-\* partial maps
-Empty        == [f \in {} |-> 0]
-Has(d, u)    == u \in DOMAIN d
-Old(d, u)    == IF Has(d, u) THEN d[u] ELSE Empty
-Put(d, u, r) == [x \in (DOMAIN d) \cup {u} |-> IF x = u THEN r ELSE d[x]]
-Drop(d, u)   == [x \in (DOMAIN d) \ {u} |-> d[x]]
-Merge(r, w)  == [f \in (DOMAIN r) \cup (DOMAIN w) |-> IF f \in DOMAIN w THEN w[f] ELSE r[f]]
-\* what a reader sees: an absent field is 0
-Read(d, u, f) == IF Has(d, u) /\ f \in DOMAIN d[u] THEN d[u][f] ELSE 0
+\* partial maps, encoded as total maps with the two sentinels NoUser and Absent
+NoRec        == [f \in Fields |-> Absent]                  \* a record none of whose fields was ever written
+NoDB         == [u \in UIDs |-> NoUser]
+Has(d, u)    == d[u] # NoUser
+Old(d, u)    == IF Has(d, u) THEN d[u] ELSE NoRec
+Put(d, u, r) == [d EXCEPT ![u] = r]
+Drop(d, u)   == [d EXCEPT ![u] = NoUser]
+Mentions(w)  == {f \in Fields : w[f] # Absent}
+Merge(r, w)  == [f \in Fields |-> IF w[f] = Absent THEN r[f] ELSE w[f]]
+\* what a reader sees: an absent field is 0 (only asked of existing users)
+Read(d, u, f) == IF d[u][f] = Absent THEN 0 ELSE d[u][f]
 
 \* the write classes of POST: subsets of the six optional fields x values
+Only(S, v) == [f \in Fields |-> IF f \in S THEN v ELSE Absent]
 Writes ==
-  (IF WithNone THEN {Empty} ELSE {})
-  \cup {[f \in {g} |-> v] : g \in OneFields, v \in VS(ValsOne)}
-  \cup {[f \in Fields \ {g} |-> v] : g \in AllButFields, v \in VS(ValsAllBut)}
-  \cup {[f \in Fields |-> v] : v \in VS(ValsAll)}
+  (IF WithNone THEN {NoRec} ELSE {})
+  \cup {Only({g}, v) : g \in OneFields, v \in VS(ValsOne)}
+  \cup {Only(Fields \ {g}, v) : g \in AllButFields, v \in VS(ValsAllBut)}
+  \cup {Only(Fields, v) : v \in VS(ValsAll)}
 
 \* malformed requests; none of them names a (uid, record) pair, all must be rejected
 MalformedKinds == {"badpath", "garbage", "emptybody", "cap-overflow", "value-not-int", "baduid-body"}
 
-NoArg == [op |-> "init", pu |-> "", bu |-> "", w |-> Empty, up |-> 0, dn |-> 0, ok |-> TRUE]
+NoArg == [op |-> "init", pu |-> "", bu |-> "", w |-> NoRec, up |-> 0, dn |-> 0, ok |-> TRUE]
 
 -----------------------------------------------------------------------------
 \* consumers: total functions of the store
@@ -84,7 +89,7 @@ ConnectNeeds == {"UpRate", "DownRate", "UpCredit", "DownCredit", "ExpiryTime"}
 AuthNeeds    == {"SessionsCap", "UpCredit", "DownCredit", "ExpiryTime"}
 UploadNeeds  == {"UpCredit", "DownCredit", "ExpiryTime"}
 
-Decodable(d, u, need) == AbsentReadsZero \/ need \subseteq DOMAIN d[u]
+Decodable(d, u, need) == AbsentReadsZero \/ \A f \in need : d[u][f] # Absent
 
 \* AuthenticateUser followed by userPanel.GetUser -> MakeValve
 ConnectRes(d, u) ==
@@ -116,12 +121,12 @@ UploadRes(d, u, up, dn) ==
        \cup (IF Now > Read(d, u, "ExpiryTime") THEN {"expired"} ELSE {})
 
 \* ListAllUsers / GetUserInfo decode every field of every (resp. one) record
-ListRes(d) == IF \A u \in DOMAIN d : Decodable(d, u, Fields) THEN "ok" ELSE "panic"
+ListRes(d) == IF \A u \in UIDs : Has(d, u) => Decodable(d, u, Fields) THEN "ok" ELSE "panic"
 
 -----------------------------------------------------------------------------
 Init ==
-  /\ db = Empty
-  /\ disk = Empty
+  /\ db = NoDB
+  /\ disk = NoDB
   /\ last = NoArg
   /\ nops = 0
 
@@ -172,8 +177,8 @@ Upload(u, up, dn) ==
   /\ Has(db, u) => /\ Read(db, u, "UpCredit") - up >= MINV
                    /\ Read(db, u, "DownCredit") - dn >= MINV
   /\ db' = IF Has(db, u)
-             THEN Put(db, u, Merge(db[u], [f \in {"UpCredit", "DownCredit"} |->
-                        IF f = "UpCredit" THEN Read(db, u, f) - up ELSE Read(db, u, f) - dn]))
+             THEN Put(db, u, [db[u] EXCEPT !["UpCredit"] = Read(db, u, "UpCredit") - up,
+                                           !["DownCredit"] = Read(db, u, "DownCredit") - dn])
              ELSE db
   /\ disk' = db'
   /\ last' = [NoArg EXCEPT !.op = "upload", !.pu = u, !.up = up, !.dn = dn, !.ok = Has(db, u)]
@@ -192,9 +197,7 @@ Spec == Init /\ [][Next]_vars
 \* the property
 
 TypeOK ==
-  /\ DOMAIN db \subseteq UIDs
-  /\ \A u \in DOMAIN db : /\ DOMAIN db[u] \subseteq Fields
-                          /\ \A f \in DOMAIN db[u] : db[u][f] \in MINV..MAXV
+  /\ \A u \in UIDs : Has(db, u) => \A f \in Fields : db[u][f] = Absent \/ db[u][f] \in MINV..MAXV
   /\ nops \in 0..MaxOps
 
 \* the state survives closing and reopening the database
@@ -207,7 +210,7 @@ ConsumersTotal ==
                      /\ AuthoriseRes(db, u) # "panic"
                      /\ \A up \in VS(UpUsages) \cup {0}, dn \in VS(DownUsages) \cup {0} : "panic" \notin UploadRes(db, u, up, dn)
 
-SameUser(d1, d2, u) == Has(d1, u) = Has(d2, u) /\ \A f \in Fields : Read(d1, u, f) = Read(d2, u, f)
+SameUser(d1, d2, u) == Has(d1, u) = Has(d2, u) /\ (Has(d1, u) => \A f \in Fields : Read(d1, u, f) = Read(d2, u, f))
 
 \* a rejected request, a read and a reopen change nothing
 RejectedUnchanged ==
@@ -221,7 +224,8 @@ ReadYourWrites ==
             w == last'.w
         IN /\ last'.pu = u
            /\ Has(db', u)
-           /\ \A f \in Fields : Read(db', u, f) = IF f \in DOMAIN w THEN w[f] ELSE Read(db, u, f)
+           /\ \A f \in Fields : Read(db', u, f) = IF f \in Mentions(w) THEN w[f]
+                                                 ELSE IF Has(db, u) THEN Read(db, u, f) ELSE 0
            /\ \A x \in UIDs \ {u} : SameUser(db, db', x)]_vars
 
 \* a deleted user is gone, nobody else is
